@@ -611,6 +611,27 @@ func c16Structural(c *core.Ctx) {
 		}
 		nScan++
 		lineLimits[maxTok] = append(lineLimits[maxTok], f.Name())
+		// per-symbol counters (score, base counts, widths, indices) are machine-word integers: a narrower counter
+		// wraps on records the 1 MiB line limit allows
+		var narrow []string
+		allInstrs(f, func(fn *ssa.Function, ins ssa.Instruction) {
+			bo, ok := ins.(*ssa.BinOp)
+			if !ok || bo.Op != token.ADD {
+				return
+			}
+			b, ok := bo.Type().Underlying().(*types.Basic)
+			if !ok || b.Info()&types.IsInteger == 0 {
+				return
+			}
+			switch b.Kind() {
+			case types.Int8, types.Int16, types.Int32, types.Uint8, types.Uint16, types.Uint32:
+				if blockInLoop(ins.Block()) {
+					narrow = append(narrow, fmt.Sprintf("%s: a %s counter is incremented per symbol", c.PosStr(ins.Pos()), b.Name()))
+				}
+			}
+		})
+		sort.Strings(narrow)
+		c.Ob("D/"+f.Name()+"/counters-are-word-sized", len(narrow) == 0, f.Pos(), "%s", first(uniqStrings(narrow), 3))
 		c.Ob("D/"+f.Name()+"/default-split-function", !split, f.Pos(), "the reader installs a custom split function; line-ending handling is no longer bufio.ScanLines'")
 		c.Ob("D/"+f.Name()+"/scanner-error-consulted", errChecked, f.Pos(), "Scanner.Err() is never consulted: an over-long line or read error would be taken for end of input")
 	}
